@@ -182,6 +182,9 @@ def materialize(d):
                            for e in range(4)] for s in range(ns)] for t in range(n)]
         return r
     r['times'] = [(hhmm(h), rf.yyjjj(dd_)) for dd_, h in inst[:n]]
+    if d.get('subhourly'):
+        # half-hourly output: HHMM stamps 0, 30, 100, 130, 200 on the start date
+        r['times'] = [(v, r['times'][0][1]) for v in (0., 30., 100., 130., 200.)[:n]]
     mk = lambda off: [[field(p, (ny, nx), off + 10000 * t + 100 * z) for z in range(nz)] for t in range(n)]
     if fmt in ('humidity', 'vertical_diffusivity', 'one3d'):
         r['data'] = mk(0)
